@@ -69,13 +69,6 @@ def main():
     with open(os.path.join(VERIF, 'MANIFEST.json'), 'w') as f:
         json.dump(doc, f, indent=1)
     print('MANIFEST.json: %d checks, %d not claimed' % (len(checks), len(na)))
-    try:
-        sys.path.insert(0, '/opt/veriftools/pyvenv/lib/python3.11/site-packages')
-        import jsonschema
-        jsonschema.validate(doc, json.load(open('/root/.vp/MANIFEST.schema.json')))
-        print('schema: valid')
-    except ImportError:
-        print('jsonschema not importable here; validate with python3-vt')
 
 
 if __name__ == '__main__':
